@@ -1433,10 +1433,13 @@ func main() {
 		"accounts (storage tries untouched for long; every third case 2-4 accounts whose secure keys share the first byte with create/destroy traffic), twin blocks "+
 		"(two states opened on the same head before either stages), on a MuxDB with real caches (TTL 0-32), hist partition factor 1-16, deduped factor 1/4/64/MaxUint32; "+
 		"interleaved reads of every committed root (accounts, storage, metadata, block-number index), restarts, and rounds of the real pruner over aligned "+
-		"[base,target); every 8th case prunes misaligned ranges (informational only); non-trivial = has forks, >= 1 prune round, >= 10 blocks",
+		"[base,target); every 8th case prunes misaligned ranges (informational only); every 8th case is a store-correspondence case (recording engine), which also runs 4-12 rounds "+
+			"of 0-8 random Get/Update/delete operations (keys of 1-3 bytes over a 4-letter alphabet, values of 1-40 bytes) on two extra tries through muxdb.Trie, one hash-skipped, one hashed; "+
+			"non-trivial = has forks, >= 1 prune round, >= 10 blocks",
 		[]string{
 			"expected content of a root = the extracted C06 state/trie model on the same operations; root hash = reference MPT hasher",
 			"roots >= target that do not descend from block target-1 (dead forks) are outside the property's prune clause: outcome recorded, not judged",
 			"LevelDB snapshot isolation and batch atomicity assumed (mem storage)",
+			"puts of a commit predicted from its handle operations = extracted trie.go-on-working-tries + hasher.store (Store/WorkTrie.v, Store/Model.v wstore); all full nodes taken to have a hash: judged exactly on hash-skipped tries, by dirty-path inclusion on hashed ones",
 		})
 }
